@@ -2,6 +2,7 @@ package main
 
 import (
 	"fmt"
+	"os"
 	"go/types"
 	"sort"
 	"strings"
@@ -363,6 +364,9 @@ func (c *FnCtx) exitChecks(p *Path, fc *FuncContract, env map[string]Val, entry 
 			allowed = append(allowed, c.resolveLocNoHavoc(p, ec, m)...)
 		}
 	}
+	if os.Getenv("HV_DEBUG") != "" {
+		fmt.Fprintf(os.Stderr, "exitChecks %s allowed=%v all=%v\n", c.label, allowed, all)
+	}
 	for _, k := range sortedKeys(p.heap.m) {
 		if strings.HasPrefix(k, "$alloc") || strings.HasPrefix(k, "$bytes") || strings.HasPrefix(k, "cell:") {
 			continue
@@ -444,7 +448,11 @@ type runOpts struct {
 func buildQuery(ob *Obligation) string {
 	var b strings.Builder
 	c := ob.Ctx
-	for _, d := range c.decls {
+	decls := c.decls
+	if ob.NDecl > 0 && ob.NDecl <= len(decls) {
+		decls = decls[:ob.NDecl] // only what existed when the obligation was emitted (everything it mentions)
+	}
+	for _, d := range decls {
 		b.WriteString(d)
 		b.WriteByte('\n')
 	}
@@ -466,8 +474,9 @@ func Discharge(obs []*Obligation, opt runOpts) []*ObResult {
 	type job struct {
 		ob  *Obligation
 		res SolveResult
-		all []SolveResult
-		q   string
+		all  []SolveResult
+		q    string
+		qlen int
 	}
 	jobs := make([]*job, len(obs))
 	for i, ob := range obs {
@@ -499,6 +508,11 @@ func Discharge(obs []*Obligation, opt runOpts) []*ObResult {
 				return
 			}
 			j.res, j.all = solve(j.q, opt.timeoutS, opt.all)
+			want := "unsat"
+			if j.res.Status == want {
+				j.qlen = len(j.q)
+				j.q = "" // keep the text only for obligations that did not discharge
+			}
 		}(j)
 	}
 	wg.Wait()
@@ -515,6 +529,9 @@ func Discharge(obs []*Obligation, opt runOpts) []*ObResult {
 		r.TimeS += j.res.Time
 		if len(j.q) > r.SmtBytes {
 			r.SmtBytes = len(j.q)
+		}
+		if j.qlen > r.SmtBytes {
+			r.SmtBytes = j.qlen
 		}
 		want := "unsat"
 		if j.ob.WantSat {
